@@ -509,6 +509,7 @@ MsgConfirm(s, a) ==
     IF ~IsChain(Cfg(s), a.chain) \/ a.tx.n = 0 THEN Err(s)
     ELSE LET v == SignerVal(s, a.chain, a.by) IN
          IF v = "" \/ ~TxExists(s, a.chain, a.tx) THEN Err(s)
+         ELSE IF ~Has(s.ch[a.chain].ve, v) /\ "ConfirmZeroAddress" \notin Dev THEN Err(s)   \* no key registered
          ELSE IF Get(s.ch[a.chain].ve, v, "zero") # a.ext THEN Err(s)
          ELSE IF Has(SigsOf(s, a.chain, a.tx), v) THEN Err(s)
          ELSE LET old == {g \in s.ch[a.chain].sigs : g.tx = a.tx}
